@@ -192,6 +192,7 @@ func (c *Connection) background(ctx context.Context) {
 			// and use sync/atomic to swap the handler.
 
 			// Always reassign a topic validator.
+			gchan.VerifPoint(ctx, "tmlibp2p.swap")
 			if req.Handler == nil {
 				if err := c.h.PubSub().RegisterTopicValidator(topicConsensus, ignoreMessage); err != nil {
 					c.log.Warn("Failed to register consensus topic validator when clearing handler", "err", err)
